@@ -20,7 +20,36 @@ func (g *gen) paramText(params []int64) string {
 	for i, p := range params {
 		parts[i] = Pick(g.r, []string{"", " ", "\t"}) + idents[p] + Pick(g.r, []string{"", " "})
 	}
-	return strings.Join(parts, ",")
+	// after the last parameter: anything but a // comment (recorded finding C03-function-ctor-param-comment, pinned)
+	return strings.Join(parts, ",") + Pick(g.r, []string{"", "", " ", "/* c */", "\n", " /**/ ", "\u2028"})
+}
+
+// pinned: a parameter text ending in a single-line comment (ES5 15.3.2.1: P only has to parse as a FormalParameterList)
+func (g *gen) pinFunctionCtor() {
+	want := &N{Tag: tFun, Vals: []int64{-1, 0}, Kids: []*N{nd(tReturn, nil, id(0))}}
+	for _, ptext := range []string{"a // c", "a//"} {
+		var pf *N
+		errText := ""
+		func() {
+			defer func() {
+				if r := recover(); r != nil {
+					errText = fmt.Sprintf("PANIC %v", r)
+				}
+			}()
+			lit, err := parser.ParseFunction(ptext, "return a")
+			if err != nil {
+				errText = err.Error()
+				return
+			}
+			pf = fromFunction(lit, tFun)
+		}()
+		shown := "syntax error: " + errText
+		if pf != nil {
+			shown = "tree " + pf.coq()
+		}
+		g.add(fmt.Sprintf("CPin 15 (%s) None %s", want.coq(), optTree(pf)),
+			fmt.Sprintf("pinned parser.ParseFunction(%q, %q) -> %s ; ES5 tree %s", ptext, "return a", shown, want.coq()), "pinned", true)
+	}
 }
 
 func optTree(n *N) string {
@@ -33,9 +62,6 @@ func optTree(n *N) string {
 // a FunctionBody through three entry points: inside a function declaration of a program (ParseFile),
 // parser.ParseFunction(params, body), and the Function constructor called as a function and with new
 func (g *gen) funBodyCase(params []int64, stmts []*N, suffix, bucket string, density, semiStyle int) {
-	for i := range stmts {
-		stmts[i] = fixRel(stmts[i])
-	}
 	g.semiStyle = semiStyle
 	g.pendingNL = false
 	toks := g.printStmts(nil, stmts, "}")
